@@ -247,8 +247,9 @@ def raw_table_state(execute, t):
     idx = execute("SELECT name, sql FROM sqlite_master WHERE type='index' AND tbl_name=? "
                   "ORDER BY name", (t,))
     rows = execute('SELECT * FROM %s ORDER BY 1' % qn(t)) if create else []
+    cols = [r[1] for r in execute('PRAGMA table_info(%s)' % qn(t))] if create else []
     return {'sql': create[0][0] if create else None, 'indexes': [tuple(r) for r in idx],
-            'rows': [tuple(r) for r in rows]}
+            'rows': [tuple(r) for r in rows], 'cols': cols}
 
 
 def rows_of(execute, t):
@@ -268,3 +269,19 @@ def jsonable(x):
     if isinstance(x, bytes):
         return x.decode('latin1')
     return x
+
+
+def from_jsonable(d):
+    """Inverse of jsonable() for dump() results (what the driver prints)."""
+    out = {}
+    for t, td in d.items():
+        out[t] = {
+            'columns': {tuple(c) for c in td['columns']},
+            'indexes': [{'name': ix['name'], 'unique': ix['unique'],
+                         'cols': tuple(tuple(c) for c in ix['cols']), 'where': ix['where'],
+                         'auto': ix['auto'], 'sql': ix.get('sql')} for ix in td['indexes']],
+            'checks': {tuple(c) for c in td['checks']},
+            'fks': {tuple(f) for f in td['fks']},
+            'sql': td.get('sql'),
+        }
+    return out
